@@ -1,9 +1,11 @@
 #!/usr/bin/env python3
-"""Engine Z query set for C07: the gate-value formula, for ALL raw bytes and ALL f32 scale/offset.
+"""Engine Z query set for C07: the per-gate value formula, for ALL 16-bit raw values and ALL f32 scale/offset.
 
 Encodes, from the MIR regenerated from the repo's current source:
-  D  = GenericDataBlock::decoded_values::{closure#0}           (decode level)
-  M  = MomentData::values dispatch (scale == 0 ?) + its two map closures  (model level)
+  D  = GenericDataBlock::scaled_value(&self, raw: u16)   (decode level per-gate kernel)
+  M  = MomentData::value_of(&self, raw: u16)             (model level per-gate kernel)
+(how the gates are cut out of the byte buffer - one byte or one big-endian pair per gate - is the
+subject of the Kani harnesses c07_gate_count_*)
 and asks the solver for inputs on which
   q_decode_spec : D != spec      (finite scale/offset)
   q_model_spec  : M != spec      (finite scale/offset)
@@ -69,75 +71,35 @@ def build(repo, cache):
     m_scale = field_index(msrc, "MomentData", "scale")
     m_off = field_index(msrc, "MomentData", "offset")
     funcs = []
-    # ---- decode level
-    hdr, body = find_function(dtext, r"decoded_values::\{closure#0\}")
-    funcs.append(hdr.split("(")[0])
-    ex = Exec(hdr, body)
-    dpaths = ex.run()
-    if ex.panics:
-        raise Unsupported("decode closure has panic paths: %s" % ex.panics)
-    dmap = {}
-    for path, (name, ty) in ex.inputs.items():
-        if path == "_2":
-            dmap[name] = "raw"
-        elif path.endswith(".%d.%d" % (i_hdr, i_scale)):
-            dmap[name] = "scale"
-        elif path.endswith(".%d.%d" % (i_hdr, i_off)):
-            dmap[name] = "offset"
-        else:
-            raise Unsupported("decode closure reads an unexpected input %s" % path)
-    dtag, dpay = [rename(t, dmap) for t in enum_terms(dpaths)]
-    # ---- model level: dispatch in values() + closures
-    hdr, body = find_function(mtext, r"moment\.rs:[0-9: ]+>::values\(")
-    funcs.append(hdr.split("(")[0])
-    exv = Exec(hdr, body, opaque=[r".*"])
-    vpaths = exv.run()
-    closures = {}
-    for k in (0, 1):
-        try:
-            h2, b2 = find_function(mtext, r"moment\.rs:[0-9: ]+>::values::\{closure#%d\}" % k)
-        except Unsupported:
-            continue
-        loc = re.search(r"\{closure@([^}]*)\}", h2).group(1)
-        e2 = Exec(h2, b2)
-        p2 = e2.run()
-        if e2.panics:
-            raise Unsupported("model closure has panic paths")
+    def one(text, pattern, scale_suffix, off_suffix):
+        hdr, body = find_function(text, pattern)
+        funcs.append(hdr.split("(")[0])
+        ex = Exec(hdr, body)
+        paths = ex.run()
+        if ex.panics:
+            raise Unsupported("%s has panic paths: %s" % (pattern, ex.panics))
         mp = {}
-        for path, (name, ty) in e2.inputs.items():
-            if path == "_2":
+        for path, (name, ty) in ex.inputs.items():
+            if path == "_2" and ty == "u16":
                 mp[name] = "raw"
-            elif path.endswith(".%d" % m_scale):
+            elif path.endswith(scale_suffix) and ty == "f32":
                 mp[name] = "scale"
-            elif path.endswith(".%d" % m_off):
+            elif path.endswith(off_suffix) and ty == "f32":
                 mp[name] = "offset"
             else:
-                raise Unsupported("model closure reads an unexpected input %s" % path)
-        closures[loc] = [rename(t, mp) for t in enum_terms(p2)]
-        funcs.append(h2.split("(")[0])
-    vmap = {}
-    for path, (name, ty) in exv.inputs.items():
-        if path.endswith(".%d" % m_scale):
-            vmap[name] = "scale"
-        else:
-            raise Unsupported("values() branches on an unexpected input %s" % path)
-    mtag = mpay = None
-    for pc, v in reversed(vpaths):
-        callee = v.fields.get("__opaque__", "") if v is not None and v.fields else ""
-        locs = [l for l in closures if l in callee]
-        if len(locs) != 1:
-            raise Unsupported("cannot tell which closure values() maps with on path %s" % pc)
-        ct, cp = closures[locs[0]]
-        cond = rename("(and %s)" % " ".join(["true"] + pc), vmap)
-        mtag = ct if mtag is None else "(ite %s %s %s)" % (cond, ct, mtag)
-        mpay = cp if mpay is None else "(ite %s %s %s)" % (cond, cp, mpay)
+                raise Unsupported("%s reads an unexpected input %s: %s" % (pattern, path, ty))
+        return [rename(t, mp) for t in enum_terms(paths)]
+    # ---- decode level: per-gate kernel
+    dtag, dpay = one(dtext, r"generic_data_block\.rs:[0-9: ]+>::scaled_value\(", ".%d.%d" % (i_hdr, i_scale), ".%d.%d" % (i_hdr, i_off))
+    # ---- model level: per-gate kernel
+    mtag, mpay = one(mtext, r"moment\.rs:[0-9: ]+>::value_of\(", ".%d" % m_scale, ".%d" % m_off)
     return dict(dtag=dtag, dpay=dpay, mtag=mtag, mpay=mpay, funcs=funcs, build_s=time.time() - t0)
 
 
 PRELUDE = """(set-logic ALL)
 (declare-const scale %s)
 (declare-const offset %s)
-(declare-const raw (_ BitVec 8))
+(declare-const raw (_ BitVec 16))
 (declare-const scale_bits (_ BitVec 32))
 (declare-const offset_bits (_ BitVec 32))
 (assert (= scale ((_ to_fp 8 24) scale_bits)))
@@ -145,7 +107,7 @@ PRELUDE = """(set-logic ALL)
 (define-fun rawf () %s ((_ to_fp_unsigned 8 24) RNE raw))
 (define-fun zero () %s ((_ to_fp 8 24) RNE 0.0))
 (define-fun finite ((x %s)) Bool (not (or (fp.isNaN x) (fp.isInfinite x))))
-(define-fun spec_tag () Int (ite (fp.eq scale zero) 0 (ite (= raw #x00) 1 (ite (= raw #x01) 2 0))))
+(define-fun spec_tag () Int (ite (fp.eq scale zero) 0 (ite (= raw #x0000) 1 (ite (= raw #x0001) 2 0))))
 (define-fun spec_pay () %s (ite (fp.eq scale zero) rawf (fp.div RNE (fp.sub RNE rawf offset) scale)))
 """ % (F32, F32, F32, F32, F32, F32)
 
@@ -158,14 +120,14 @@ def same(tag_a, pay_a, tag_b, pay_b):
 def queries(enc):
     d = "(define-fun dtag () Int %s)\n(define-fun dpay () %s %s)\n(define-fun mtag () Int %s)\n(define-fun mpay () %s %s)\n" % (
         enc["dtag"], F32, enc["dpay"], enc["mtag"], F32, enc["mpay"])
-    dom = "(assert (and (finite scale) (finite offset)))\n(assert (or (not (fp.eq scale zero)) (bvuge raw #x02)))\n"
+    dom = "(assert (and (finite scale) (finite offset)))\n(assert (or (not (fp.eq scale zero)) (bvuge raw #x0002)))\n"
     tail = "(check-sat)\n(get-value (scale_bits offset_bits raw))\n"
     return {
         "q_decode_spec": PRELUDE + d + dom + "(assert (not %s))\n" % same("dtag", "dpay", "spec_tag", "spec_pay") + tail,
         "q_model_spec": PRELUDE + d + dom + "(assert (not %s))\n" % same("mtag", "mpay", "spec_tag", "spec_pay") + tail,
         "q_levels": PRELUDE + d + "(assert (not %s))\n" % same("dtag", "dpay", "mtag", "mpay") + tail,
         # vacuity guard: the domain itself is satisfiable and a deliberately wrong spec is refuted
-        "w_domain_sat": PRELUDE + d + dom + "(assert (= raw #x7b))\n" + tail,
+        "w_domain_sat": PRELUDE + d + dom + "(assert (= raw #x7b01))\n" + tail,
         "w_wrong_spec_sat": PRELUDE + d + dom + "(assert (not (= dpay (fp.div RNE (fp.sub RNE offset rawf) scale))))\n(assert (= dtag 0))\n" + tail,
     }
 
@@ -229,7 +191,7 @@ def native(repo, cache, triples, harness_dir):
 
 FIXED = [(bits32(s), bits32(o), r) for (s, o) in
          [(2.0, 66.0), (2.0, 129.0), (1.0, 129.0), (16.0, 128.0), (2.8361, 2.0), (300.0, -60.5), (0.0, 0.0), (-1.0, 0.5)]
-         for r in (0, 1, 2, 3, 127, 128, 254, 255)]
+         for r in (0, 1, 2, 255, 256, 257, 40000, 65535)]
 
 
 def eval_encoding(enc, triples):
@@ -239,7 +201,7 @@ def eval_encoding(enc, triples):
     script = PRELUDE + d + "(declare-const db (_ BitVec 32))\n(declare-const mb (_ BitVec 32))\n"
     out = {}
     for (sb, ob, raw) in triples:
-        q = script + "(assert (= scale_bits #x%08x))\n(assert (= offset_bits #x%08x))\n(assert (= raw #x%02x))\n" % (sb, ob, raw)
+        q = script + "(assert (= scale_bits #x%08x))\n(assert (= offset_bits #x%08x))\n(assert (= raw #x%04x))\n" % (sb, ob, raw)
         q += "(assert (= dpay ((_ to_fp 8 24) db)))\n(assert (= mpay ((_ to_fp 8 24) mb)))\n(check-sat)\n(get-value (dtag mtag db mb))\n"
         v, o = mir2smt.run_solver(q, "z3", 60)
         if v != "sat":
